@@ -348,3 +348,17 @@ PROPS["C04"] = {
          "checks": {"quick": 12, "thorough": 150}, "shards": {"quick": 4, "thorough": 16}, "timeout": {"quick": 900, "thorough": 5400}},
     ],
 }
+
+PROPS["C05"] = {
+    "level": "exploration",
+    "rule": ("the exported Run with observing peer processes (the test binary re-executed as script-client / script-server): mode both (script client + script servers that answer every TCP connect with their identity and log start/SIGTERM), mode client (script client + in-process reference and gRPC servers), mode server (script servers + in-process reference and gRPC clients); per run a config from a pool of 7 feature sets (TLS, client certs, HTTP/3, gRPC-only, include/exclude ...), the embedded corpus or 1-4 generated suites, --run/--skip pattern sets built from real permutation names (exact, *, ** generalisations), --max-servers 1-4, client answer order, GOMAXPROCS in {1,2,16}, optionally a server start fault for one instance tuple. "
+             "Oracle from the peers' logs against an independent selection model (own glob matcher, own gRPC-peer rule table): every selected name handed to the client exactly once (zero times and reported if its server could not start), nothing unselected; at hand-over the identity read from host:port is a server started for exactly that permutation's protocol/HTTP version/TLS/client-cert tuple that has not logged a stop, port and certificate in the request are that server's, x-test-case-name (also in raw request headers) equals the name; (grpc server impl) names exactly for applicable cases; #started - #stopped <= max-servers at every instant; every started server stopped and no child process left; one server instance per needed tuple and none superfluous. "
+             "Non-trivial: a run with a filter and max-servers < 4."),
+    "assumptions": ["for in-process reference servers only TCP reachability of the port is observed (HTTP/3 skipped)",
+                    "in server mode deliveries happen inside the in-process reference clients; only server lifecycle and instance selection are observed",
+                    "a run that does not return within 5 minutes is inconclusive, not a violation"],
+    "units": [
+        {"name": "C05Dispatch", "pkg": CC, "test": "TestVerifC05Dispatch", "kind": "rapid", "race": {"quick": False, "thorough": True},
+         "checks": {"quick": 40, "thorough": 120}, "shards": {"quick": 4, "thorough": 16}, "timeout": {"quick": 900, "thorough": 5400}},
+    ],
+}
